@@ -102,3 +102,35 @@ def assignment_evaluate(cx):
                       z3.ForAll([k], z3.Implies(k != var.t, z3.And(z3.Select(a2, k) == z3.Select(arr, k), z3.Select(d2, k) == z3.Select(dom, k)))))
     cx.ensures(post)
     cx.raises(lambda st, e: z3.And(z3.Not(holds.t), z3.Not(z3.Select(dom, dflt.t))))
+
+
+@contract('program/assignment/poly_assignment.py', 'PolyAssignment.evaluate_right_side', ['C12'])
+def evaluate_right_side(cx):
+    """a probabilistic choice is sampled by random.choices over the branch polynomials evaluated in the state, weighted by the branch
+    probabilities evaluated in the state (same order, same number); a branch that is not numeric in the state is an EvaluationException"""
+    VALAT = z3.Function('value_in_state', REF, R); ISNUM = z3.Function('is_number_in_state', REF, B)
+    polys = cx.seq('polynomials', DRef('Expr')); probs = cx.seq('probabilities', DRef('Expr'))
+    cx.param(self=cx.obj('PolyAssignment', polynomials=polys, probabilities=probs), state=cx.ref('state'))
+    cx.call('subs', lambda ex, st, r, a, kw: V('num', VALAT(r.t), src=r), trusted='Expr.subs(state): value of the expression in the state')
+    cx.attr('is_Number', lambda ex, st, o: VB(ISNUM(o.x['src'].t)))
+    cx.call('EvaluationException', lambda ex, st, r, a, kw: V('exc', 'EvaluationException'))
+    cx.set_hook('empty_kinds', {'probabilities': DSeq(DN), 'polynomials': DSeq(DN)})
+    j = z3.Int('j')
+
+    def choices(ex, st, r, a, kw):
+        pop, w = a[0], kw['weights']
+        ex.need(st, z3.And(z3.Length(pop.t) == z3.Length(polys.t), z3.Length(w.t) == z3.Length(probs.t),
+                           z3.ForAll([j], z3.Implies(z3.And(0 <= j, j < z3.Length(polys.t)), pop.t[j] == VALAT(polys.t[j]))),
+                           z3.ForAll([j], z3.Implies(z3.And(0 <= j, j < z3.Length(probs.t)), w.t[j] == VALAT(probs.t[j]))),
+                           toint(kw['k']) == 1), 'random_choices.arguments@0', 'ensures')
+        return V('seq', z3.Unit(z3.Const('chosen', R)), ek=DN)
+    cx.call('random.choices', choices, trusted='random.choices(population, weights, k=1): one element drawn with the given weights')
+    allnum = lambda seq, upto: z3.ForAll([j], z3.Implies(z3.And(0 <= j, j < upto), ISNUM(seq[j])))
+    cx.invariant(0, lambda st: z3.And(z3.Length(st['probabilities'].t) == st['$i0'].t, allnum(probs.t, st['$i0'].t),
+                                      z3.ForAll([j], z3.Implies(z3.And(0 <= j, j < st['$i0'].t), st['probabilities'].t[j] == VALAT(probs.t[j])))))
+    cx.invariant(1, lambda st: z3.And(z3.Length(st['probabilities'].t) == z3.Length(probs.t), allnum(probs.t, z3.Length(probs.t)),
+                                      z3.ForAll([j], z3.Implies(z3.And(0 <= j, j < z3.Length(probs.t)), st['probabilities'].t[j] == VALAT(probs.t[j]))),
+                                      z3.Length(st['polynomials'].t) == st['$i1'].t, allnum(polys.t, st['$i1'].t),
+                                      z3.ForAll([j], z3.Implies(z3.And(0 <= j, j < st['$i1'].t), st['polynomials'].t[j] == VALAT(polys.t[j])))))
+    cx.ensures(lambda st, r: z3.And(allnum(probs.t, z3.Length(probs.t)), allnum(polys.t, z3.Length(polys.t))))
+    cx.raises(lambda st, e: z3.Not(z3.And(allnum(probs.t, z3.Length(probs.t)), allnum(polys.t, z3.Length(polys.t)))))
